@@ -353,9 +353,9 @@ def root_loaded(ctx, rule='C01.root-loaded'):
                                '%s moves the bucket\'s root to another page at %s and can return without materialising it (%s): the write-out indexes page_node_ids by the root '
                                'page and panics when the transaction never touched that page' % (g.qual, g.loc(bb, si), 'no call of %s on that page id' % mat.qual if not loads else 'a path bypasses the call'),
                                where=g.loc(bb, si)))
-    f = floor(rule, 'stores of the bucket root page in the rebalance step', n, 1)
-    if f:
-        res.append(f)
+    if n == 0:
+        # (a root collapse that moves the child's content up into the root node never changes the root page: nothing to load)
+        res.append(ok(rule, 'the rebalance step never moves the bucket root to another page', sites=0))
     return res
 
 
